@@ -94,6 +94,8 @@ def _tcd():
 
 
 class _Tap(io.StringIO):
+    is_sim_std_stream = True
+
     def __init__(self, which):
         super().__init__()
         self._which = which
@@ -136,6 +138,12 @@ def run_cli(sim: kernel.Sim, argv, knob=None, tap=False, cwd=None, label='cli'):
     else:
         out = open(os.path.join(world.io, 'out'), 'w+')
         err = open(os.path.join(world.io, 'err'), 'w+')
+    # the standard streams of the simulated Exactly process: what StdOutputFiles gets, what sys.stdout / sys.stderr are
+    # (code that falls back on them - or hands them to a child - reaches the same streams, as in a real process), and what
+    # a child that is given no handle inherits
+    sim.std_streams = {'stdout': out, 'stderr': err}
+    real_std = (sys.stdout, sys.stderr)
+    sys.stdout, sys.stderr = out, err
     try:
         try:
             res['exit'] = mp.execute(list(argv), StdOutputFiles(out, err))
@@ -155,6 +163,8 @@ def run_cli(sim: kernel.Sim, argv, knob=None, tap=False, cwd=None, label='cli'):
                 with open(f.name, 'rb') as rf:
                     res[k] = rf.read().decode('utf-8', errors='surrogateescape')
     finally:
+        sys.stdout, sys.stderr = real_std
+        sim.std_streams = {}
         if not tap:
             out.close()
             err.close()
